@@ -234,7 +234,10 @@ class Interp:
                 loc[p] = args[i]
         extra = args[n:]
         if a.vararg:
-            loc[a.vararg.arg] = tuple(extra)
+            if len(extra) == 1 and isinstance(extra[0], StarArgs):
+                loc[a.vararg.arg] = extra[0].seq   # f(*<symbolic collection>): *args is that collection
+            else:
+                loc[a.vararg.arg] = tuple(extra)
         elif extra:
             raise PyRaise(TypeError(f"{clo.name}: too many positional arguments"))
         for k in list(kwargs):
@@ -305,6 +308,11 @@ class Interp:
             return self.call(f.func, (f.obj,) + tuple(args), kwargs)
         if isinstance(f, _m.Model):
             return f.fn(self, *args, **kwargs)
+        if isinstance(f, SRef):
+            h = getattr(self, "ref_call", None)
+            if h is None:
+                raise OutOfSubset(f"call of opaque {f.kind.name}")
+            return h(self, f, *args, **kwargs)
         c = self._contract_for(f)
         if c is not None:
             return self.apply_contract(c, args, kwargs)
@@ -1015,7 +1023,11 @@ class Interp:
         args = []
         for a in e.args:
             if isinstance(a, ast.Starred):
-                args.extend(_m.iter_concrete(self, self.eval(a.value, frame)))
+                sv = self.deopt(self.eval(a.value, frame))
+                if isinstance(sv, (SSeq, MutSet, SSet)) and not (isinstance(sv, MutSet) and sv.val is None):
+                    args.append(StarArgs(sv))   # symbolic-length star argument: handed over as one marker
+                else:
+                    args.extend(_m.iter_concrete(self, sv))
             else:
                 args.append(self.eval(a, frame))
         kwargs = {}
@@ -1082,6 +1094,13 @@ class Interp:
     def e_DictComp(self, e, frame):
         from . import loops
         return loops.comprehension(self, e, frame, "dict")
+
+
+class StarArgs(EngineValue):
+    """`*collection` with a symbolic collection at a call site"""
+
+    def __init__(self, seq):
+        self.seq = seq
 
 
 class _NeedPure(Exception):
